@@ -735,6 +735,13 @@ def run_function(E, fname, args, depth=0):
                     regs[i.dest] = True if z3.is_true(r) else False if z3.is_false(r) else r
             elif op in ('add', 'sub', 'mul', 'and', 'or', 'xor', 'shl', 'lshr', 'ashr', 'sdiv', 'udiv', 'srem', 'urem'):
                 a = val(i.a, i.ty); b = val(i.b, i.ty); bits = m.resolve(i.ty).bits
+                if isinstance(a, tuple) or isinstance(b, tuple):
+                    # integer arithmetic on pointer values (ptrtoint): differences within one object, pointer +/- integer
+                    if op == 'sub' and isinstance(a, tuple) and isinstance(b, tuple) and a[0] == b[0] and a[0] != 'fn' and isinstance(a[1], int) and isinstance(b[1], int): regs[i.dest] = (a[1] - b[1]) & ((1 << bits) - 1)
+                    elif op in ('add', 'sub') and isinstance(a, tuple) and isint(b) and isinstance(a[1], int): regs[i.dest] = (a[0], a[1] + (E.sgn(b, bits) if op == 'add' else -E.sgn(b, bits)))
+                    elif op == 'add' and isinstance(b, tuple) and isint(a) and isinstance(b[1], int): regs[i.dest] = (b[0], b[1] + E.sgn(a, bits))
+                    else: raise Unsupported('integer arithmetic %s on pointers' % op)
+                    continue
                 if bits == 1:
                     if isinstance(a, (bool, int)) and isinstance(b, (bool, int)) and not z3.is_expr(a) and not z3.is_expr(b):
                         A, B = bool(a), bool(b)
